@@ -179,6 +179,9 @@ func clone(p *gen.Project, name string) *gen.Project {
 
 var allCropFiles = []string{"SM", "CCM", "SOY", "SW", "WW", "WG", "WR", "TR", "OA", "WRA", "K", "ZR", "LUP", "AA", "GR", "ORH", "PH", "SE", "OEL", "WRC"}
 
+// annualCropCodes: main and catch crops with their own crop files (3 to 7 development stages)
+var annualCropCodes = []string{"SM", "CCM", "SOY", "SW", "WW", "WG", "WR", "TR", "OA", "WRA", "K", "ZR", "LUP", "ORH", "PH", "SE", "OEL", "WRC"}
+
 var ymlOnce sync.Once
 var ymlDir string
 
@@ -224,6 +227,25 @@ func checkC13(c *core.Ctx) {
 		b.Cfg.CropParamFmt = "yml"
 		add(&pairCase{Name: a.Name, What: "crop parameters classic vs converted YAML, crop " + crop, A: a, B: b, ParamB: ymlParams})
 	}
+	// (1b) whole rotations, classic vs converted YAML: crops with different numbers of development stages, organs
+	// and perennial flags follow each other (what one crop file leaves behind must not reach the next crop)
+	for v := 0; v < c.Pick(3, 16); v++ {
+		r := rngFor(c, 1310+int64(v))
+		var crops []string
+		for _, k := range r.Perm(len(annualCropCodes))[:5] {
+			crops = append(crops, annualCropCodes[k])
+		}
+		a := baseEquivProject(c, fmt.Sprintf("qa%d", v), 1310+int64(v), crops)
+		if len(a.Rotation) < 3 {
+			o := gen.Opts{Years: 5, MinLayers: 4, MaxLayers: 12, Crops: crops, Schedules: true, ETMethods: []int{2, 3}, DateFormats: []int{1}, StartYearMin: 1960, StartYearMax: 2020}
+			a = gen.Random(r, a.Name, o)
+			a.Cfg.ResultFormat, a.Cfg.ResultExt = 1, "csv"
+			a.SetVerificationOutputs()
+		}
+		b := clone(a, fmt.Sprintf("qb%d", v))
+		b.Cfg.CropParamFmt = "yml"
+		add(&pairCase{Name: a.Name, What: fmt.Sprint("rotation classic vs converted YAML, crops ", crops), A: a, B: b, ParamB: ymlParams})
+	}
 	nvar := c.Pick(2, 12)
 	for v := 0; v < nvar; v++ {
 		// (2) soil profile fixed-width text vs csv
@@ -238,8 +260,14 @@ func checkC13(c *core.Ctx) {
 		b = clone(a, fmt.Sprintf("rb%d", v))
 		b.Cfg.CropFileFormat = "csv"
 		add(&pairCase{Name: a.Name, What: "rotation txt vs csv", A: a, B: b})
-		// (4) measured initial values text vs csv
+		// (4) measured initial values text vs csv (profiles that end inside the deepest sampling interval included)
 		a = baseEquivProject(c, fmt.Sprintf("ma%d", v), 1360+int64(v), nil)
+		if v%2 == 1 {
+			r := rngFor(c, 1360+int64(v))
+			a = gen.Random(r, a.Name, gen.Opts{Years: 2, MinLayers: 13, MaxLayers: 20, Schedules: true, Measure: true, ETMethods: []int{2, 3}, DateFormats: []int{1}, StartYearMin: 1960, StartYearMax: 2030})
+			a.Cfg.ResultFormat, a.Cfg.ResultExt = 1, "csv"
+			a.SetVerificationOutputs()
+		}
 		b = clone(a, fmt.Sprintf("mb%d", v))
 		m := *a.Measure
 		m.Enc = "csv"
